@@ -363,6 +363,11 @@ def lit_value(text):
         return ("char", ord(u)) if len(u) == 1 else None
     if len(t) >= 2 and t[0] == '"' and t[-1] == '"':
         return ("str", _unescape(t[1:-1]))
+    if len(t) >= 4 and t[:2] == "b'" and t[-1] == "'":
+        u = _unescape(t[2:-1])
+        return ("int", ord(u)) if len(u) == 1 and ord(u) < 256 else None          # byte literal
+    if len(t) >= 3 and t[:2] == 'b"' and t[-1] == '"':
+        return ("list", tuple(("int", b) for b in _unescape(t[2:-1]).encode()))     # byte string
     m = re.match(r"^(0x[0-9a-fA-F_]+|0b[01_]+|0o[0-7_]+|[0-9][0-9_]*)(u8|u16|u32|u64|usize|i32|i64|isize)?$", t)
     if m:
         return ("int", int(m.group(1).replace("_", ""), 0))
